@@ -582,57 +582,6 @@ Proof.
   - apply Z.eqb_eq. assumption.
 Qed.
 
-Definition reg_ok_spec (input : list txn) (names : list acct) (obs : list (nat * list orow)) : Prop :=
-  exists out,
-    pick input (map fst obs) = Some out
-    /\ Permutation out input
-    /\ StronglySorted hdr_le out
-    /\ StronglySorted before (combine (map fst obs) out)
-    /\ Forall2 (fun e o => Forall2 row_rel (filter (fun r => keep names (fst r)) (snd e)) (snd o))
-               (spec_entries entry_posts [] out) obs
-    /\ Forall (fun o => StronglySorted (fun a b => key_cmp (orow_key a) (orow_key b) <> Gt) (snd o)) obs
-    /\ (names = [] -> forall p, In p (flat_map t_posts input) ->
-        last_total (p_key p) (map orow_obs (flat_map snd obs))
-        = Some (spec_own (bposts_of input) (p_key p))).
-
-Lemma reg_ok_sound input names obs : reg_ok input names obs = true -> reg_ok_spec input names obs.
-Proof.
-  unfold reg_ok, reg_ok_spec. destruct (pick input (map fst obs)) as [out|] eqn:Hp; [|discriminate].
-  intros H. exists out.
-  apply andb_true_iff in H. destruct H as [H H4].
-  apply andb_true_iff in H. destruct H as [H H3].
-  apply andb_true_iff in H. destruct H as [H1 H2].
-  unfold order_ok in H1. apply andb_true_iff in H1. destruct H1 as [H1a H1b].
-  assert (length (map fst obs) = length out) as HL.
-  { pose proof (pick_spec _ _ _ Hp) as E. apply (f_equal (@length _)) in E.
-    rewrite !map_length in E. rewrite map_length. exact E. }
-  assert (StronglySorted before (combine (map fst obs) out)) as HB.
-  { apply StronglySorted_impl with (R := fun a b => before_b a b = true).
-    - intros a b _ _. apply before_b_sound.
-    - apply all_pairs_b_sound. exact H1b. }
-  split; [reflexivity|].
-  split; [apply (pick_perm _ _ _ Hp), is_perm_of_range_sound; exact H1a|].
-  split.
-  { rewrite <- (map_snd_combine (map fst obs) out HL).
-    apply (StronglySorted_map hdr_le snd).
-    apply StronglySorted_impl with (R := before); [|exact HB].
-    intros a b _ _. apply before_le. }
-  split; [exact HB|].
-  split.
-  { apply rforall2b_sound in H2. revert H2. apply Forall2_impl_c03.
-    intros e o Heo. unfold entry_ok in Heo. apply rforall2b_sound in Heo.
-    revert Heo. apply Forall2_impl_c03. intros a b. apply row_ok_sound. }
-  split.
-  { rewrite Forall_forall. rewrite forallb_forall in H3. intros o Ho. specialize (H3 o Ho).
-    unfold rows_sorted_b in H3. apply all_pairs_b_sound in H3.
-    apply StronglySorted_impl with (R := fun a b => key_leb (orow_key a) (orow_key b) = true); [|exact H3].
-    intros a b _ _. apply key_leb_true. }
-  intros En p Hin. subst names. unfold last_is_balance_b in H4.
-  rewrite forallb_forall in H4. specialize (H4 p Hin).
-  destruct (last_total (p_key p) (map orow_obs (flat_map snd obs))) as [z|]; [|discriminate].
-  apply Z.eqb_eq in H4. rewrite H4. reflexivity.
-Qed.
-
 Lemma order_ok_sound input idxs out :
   pick input idxs = Some out -> order_ok input idxs out = true ->
   Permutation out input /\ StronglySorted hdr_le out /\ StronglySorted before (combine idxs out).
@@ -651,6 +600,46 @@ Proof.
   apply (StronglySorted_map hdr_le snd).
   apply StronglySorted_impl with (R := before); [|exact HB].
   intros a b _ _. apply before_le.
+Qed.
+
+Definition reg_ok_spec (input : list txn) (names : list acct) (order : list nat)
+           (obs : list (nat * list orow)) : Prop :=
+  exists out,
+    pick input order = Some out
+    /\ Permutation out input
+    /\ StronglySorted hdr_le out
+    /\ StronglySorted before (combine order out)
+    /\ Forall2 (fun e o => fst e = fst o /\ Forall2 row_rel (snd e) (snd o))
+               (expected_entries names order out) (filter has_rows obs)
+    /\ Forall (fun o => StronglySorted (fun a b => key_cmp (orow_key a) (orow_key b) <> Gt) (snd o)) obs
+    /\ (names = [] -> forall p, In p (flat_map t_posts input) ->
+        last_total (p_key p) (map orow_obs (flat_map snd obs))
+        = Some (spec_own (bposts_of input) (p_key p))).
+
+Lemma reg_ok_sound input names order obs :
+  reg_ok input names order obs = true -> reg_ok_spec input names order obs.
+Proof.
+  unfold reg_ok, reg_ok_spec. destruct (pick input order) as [out|] eqn:Hp; [|discriminate].
+  intros H. exists out.
+  apply andb_true_iff in H. destruct H as [H H4].
+  apply andb_true_iff in H. destruct H as [H H3].
+  apply andb_true_iff in H. destruct H as [H1 H2].
+  destruct (order_ok_sound _ _ _ Hp H1) as [HP [HS HB]].
+  split; [reflexivity|]. split; [exact HP|]. split; [exact HS|]. split; [exact HB|].
+  split.
+  { apply rforall2b_sound in H2. revert H2. apply Forall2_impl_c03.
+    intros e o Heo. unfold entry_ok in Heo. apply andb_true_iff in Heo. destruct Heo as [He1 He2].
+    split; [apply Nat.eqb_eq; exact He1|].
+    apply rforall2b_sound in He2. revert He2. apply Forall2_impl_c03. intros a b. apply row_ok_sound. }
+  split.
+  { rewrite Forall_forall. rewrite forallb_forall in H3. intros o Ho. specialize (H3 o Ho).
+    unfold rows_sorted_b in H3. apply all_pairs_b_sound in H3.
+    apply StronglySorted_impl with (R := fun a b => key_leb (orow_key a) (orow_key b) = true); [|exact H3].
+    intros a b _ _. apply key_leb_true. }
+  intros En p Hin. subst names. unfold last_is_balance_b in H4.
+  rewrite forallb_forall in H4. specialize (H4 p Hin).
+  destruct (last_total (p_key p) (map orow_obs (flat_map snd obs))) as [z|]; [|discriminate].
+  apply Z.eqb_eq in H4. rewrite H4. reflexivity.
 Qed.
 
 (* ------------------------------------------------------------------ *)
